@@ -3,6 +3,6 @@ CONSTANTS
   SetNK = 4
   Vals = {"", "a", "b"}
   Flavours = {"map", "set"}
-  NilEnc = {FALSE, TRUE}
+  EmptyEncs = {"empty", "nil"}
   Modes = {"full", "lazy"}
 INVARIANTS TypeOK ObsOK
